@@ -1,5 +1,5 @@
 """C06 - SigV4 presigned URLs (DESIGN.md section 3, C06)."""
-from .. import cmpnorm, flow, guards, paths
+from .. import cmpnorm, flow, guards, paths, inline
 from ..facts import callee_def, short
 from ..report import AnchorMissing
 from . import sigcore, sigwrites
@@ -84,41 +84,37 @@ FIELDS = {"algorithm": "X-Amz-Algorithm", "credential": "X-Amz-Credential", "dat
 
 
 def rule_r2(chk, db):
-    cands = [b for b in db.grep("PresignedQs") if b.crate == "s3s" and any(st["rv"]["k"] == "agg" and st["rv"].get("adt", "").endswith("::PresignedQs") for _, _, st in b.stmts())]
-    if len(cands) != 1:
-        raise AnchorMissing("PresignedQs constructor: %d candidates" % len(cands))
-    b = cands[0]
-    for bi, si, st in b.stmts():
-        rv = st["rv"]
-        if rv["k"] == "agg" and rv.get("adt", "").endswith("::PresignedQs"):
-            for f, o in zip(rv["fields"], rv["ops"]):
-                sl = flow.backward(b, o, at=bi)
-                gu = [(cb, t) for cb, t, _ in sl.calls if callee_def(t).endswith("OrderedQs::get_unique")]
-                lits = [paths.str_args(b, t) for _, t in gu]
-                chk.verdict(len(gu) == 1 and lits == [[FIELDS.get(f)]], "R2", "qs." + f, b.loc(bi),
-                            "presigned field %s is read by %s (expected one get_unique(%r): duplicates must fail)" % (f, lits, FIELDS.get(f)))
-            chk.floor("R2", len(rv["fields"]), 6, "PresignedQs fields")
-    # parse(): field-for-field
-    p = db.body(PARSE + "PresignedUrlV4::<'a>::parse")
+    """every X-Amz-* parameter is taken with get_unique under its literal name and reaches the same-named field of PresignedUrlV4 (through
+    whatever intermediate struct / helper the parser uses: the parser is studied with its helpers inlined)"""
+    p = inline.inlined(db, db.body(PARSE + "PresignedUrlV4::<'a>::parse"))
     if p is None:
         raise AnchorMissing("PresignedUrlV4::parse not found")
     want = {"algorithm": ("algorithm", None), "credential": ("credential", "CredentialV4::<'a>::parse"), "amz_date": ("date", "AmzDate::parse"),
             "expires": ("expires", "parse_expires"), "signed_headers": ("signed_headers", None), "signature": ("signature", None)}
-    okret = [w for w in flow.return_writes(p) if w["kind"] == "Ok"]
+    n = 0
     for bi, si, st in p.stmts():
         rv = st["rv"]
         if rv["k"] == "agg" and rv.get("adt", "").endswith("::PresignedUrlV4"):
             for f, o in zip(rv["fields"], rv["ops"]):
+                if f not in want:
+                    chk.fail("R2", "parse." + f, p.loc(bi), "PresignedUrlV4 has a field %s the specification table does not know" % f)
+                    continue
                 src, via = want[f]
+                n += 1
                 sl = flow.backward(p, o, at=bi)
-                ok = ("PresignedQs", src) in sl.fields and not any(a == "PresignedQs" and x != src for a, x in sl.fields)
+                gu = [(cb, t) for cb, t, _ in sl.calls if callee_def(t).endswith("OrderedQs::get_unique")]
+                lits = [paths.str_args(p, t) for _, t in gu]
+                chk.verdict(len(gu) == 1 and lits == [[FIELDS[src]]], "R2", "qs." + src, p.loc(bi),
+                            "PresignedUrlV4.%s is read by get_unique%s (expected exactly one get_unique(%r): duplicates must fail)" % (f, lits, FIELDS[src]))
+                ok = True
                 if via:
-                    ok = ok and any(callee_def(t).endswith(via) for _, t, _ in sl.calls)
+                    ok = any(callee_def(t).endswith(via) for _, t, _ in sl.calls)
                 chk.verdict(ok, "R2", "parse." + f, p.loc(bi), "PresignedUrlV4.%s is not derived from the %s parameter%s" % (f, FIELDS[src], " via " + via if via else ""))
             # signature shape check dominates
             f2 = guards.dominating_facts(p, bi)
             chk.verdict(any(x[0] == "call" and x[1].endswith("is_sha256_checksum") and x[2] is True for x in f2), "R2", "parse.signature-shape", p.loc(bi),
                         "X-Amz-Signature is accepted without the 64-hex-digit shape check", nontrivial=False)
+    chk.floor("R2", n, 6, "PresignedUrlV4 fields traced to their query parameters")
 
 
 def rule_r4(chk, db):
